@@ -132,6 +132,8 @@ def generate(rng, tier):
         case["layer_values"] = {"vmin": rng.choice([0, 0.0])}
     if rng.random() < 0.2:
         case["call_values"] = {"vmin": rng.choice([0, 0.0])}
+    if rng.random() < 0.02:
+        case["big"] = {"n": rng.choice([120000, 300000]), "res": rng.choice([4, 16]), "op": rng.choice(["sum", "mean"]), "seed": rng.getrandbits(30)}
     return case
 
 
@@ -468,11 +470,52 @@ def layer_equal(la, lb, check_mode=True):
     return None
 
 
+def big_scenario(bg, viol, stats):
+    """'Calling again with the same arguments returns the same data' at a size where libraries switch code paths: the shipped
+    histogram2d on 10^5 points, twice, with all numba threads (a stress run with real threads: it can show that repeated calls
+    differ, never that they cannot; the record carries no run-dependent numbers so that the replay is stable)."""
+    import numba
+    import osyris
+
+    stats.inc("probe.large_histogram2d_repeated")
+    n = bg["n"]
+    g = np.random.default_rng(bg["seed"])
+    x = osyris.Array(values=g.uniform(1.0, 2.0, n), unit="cm", name="xq")
+    y = osyris.Array(values=g.uniform(-1.0, 3.0, n), unit="s", name="yq")
+    w = osyris.Array(values=g.integers(1, 7, n).astype(float), unit="g", name="w")
+    keep = [a.values.copy() for a in (x, y, w)]
+    old = numba.get_num_threads()
+    numba.set_num_threads(numba.config.NUMBA_NUM_THREADS)
+    try:
+        outs = []
+        for _ in range(2):
+            with np.errstate(all="ignore"):
+                P = osyris.histogram2d(x, y, osyris.core.Layer(w, operation=bg["op"]), resolution=bg["res"], plot=False)
+            outs.append(np.ma.filled(P.layers[0]["data"], np.nan).copy())
+    except Exception as e:
+        viol.append({"class": "frontend-exception", "clause": "large-histogram2d", "key": {"class": "frontend-exception", "clause": "large-histogram2d", "fn": "histogram2d"},
+                     "detail": {"error": f"{type(e).__name__}: {e}"[:200], "step": 0, "call": {"fn": "histogram2d", "big": bg}}})
+        return
+    finally:
+        numba.set_num_threads(old)
+    if not np.array_equal(outs[0], outs[1], equal_nan=True):
+        viol.append({"class": "repeat", "clause": "large-histogram2d", "key": {"class": "repeat", "clause": "large-histogram2d", "fn": "histogram2d"},
+                     "detail": {"n": n, "note": "two identical calls returned different data", "step": 0, "call": {"fn": "histogram2d", "big": bg}}})
+    elif any(not np.array_equal(a.values, k) for a, k in zip((x, y, w), keep)):
+        viol.append({"class": "input-modified", "clause": "large-histogram2d", "key": {"class": "input-modified", "clause": "large-histogram2d", "fn": "histogram2d"},
+                     "detail": {"n": n, "step": 0, "call": {"fn": "histogram2d", "big": bg}}})
+
+
 def execute(case, stats):
     import matplotlib.colors as mcolors
 
     viol = []
     res = {"violations": viol, "nontrivial": False}
+    if case.get("big"):
+        big_scenario(case["big"], viol, stats)
+        if viol:
+            res["signature"] = core.digest(case)[:20]
+            return res
 
     def V(cls, clause, detail, step, call):
         viol.append({"class": cls, "clause": clause, "key": {"class": cls, "clause": clause, "fn": call["fn"]}, "detail": dict(detail, step=step, call=call)})
@@ -595,10 +638,15 @@ def execute(case, stats):
 
 
 def measure(case):
-    return (len(case["calls"]), sum(sum(o.values()) for o in case["layer_opts"]), len(core.dumps(case["calls"])), len(case["res_dict"]))
+    return (len(case["calls"]) + (100 if case.get("big") else 0), sum(sum(o.values()) for o in case["layer_opts"]), len(core.dumps(case["calls"])), len(case["res_dict"]))
 
 
 def reductions(case, viol):
+    if case.get("big"):
+        c = dict(case)
+        del c["big"]
+        yield c
+        yield dict(case, calls=case["calls"][:1])
     yield from list_reductions(case, "calls")
     for k in range(3):
         for o in OPTS:
